@@ -13,6 +13,7 @@ import (
 	"bytes"
 	"encoding/binary"
 	"fmt"
+	"io"
 	"os"
 	"strings"
 	"sync"
@@ -195,6 +196,15 @@ func Child(seed int64, tier, stateFile string, rounds int, saveMs int, compress 
 	// every few deliveries a snapshot save is started immediately before the node gets the block, so
 	// that the commit runs into a save that has only just been launched
 	s.BeforeNodeDeliver = func() {
+		// an explicit save of a set that has nothing unsaved (the text UI's "save" right after a completed save): the
+		// commit that follows has to stop this writer like any other. (Not before the first block: a set that has never
+		// seen a block has no block to name - Save then writes a 16-byte file that the loader skips.)
+		if u := s.N.Ch.Unspent; u.LastBlockHeight > 0 && !u.DirtyDB.Get() && !u.WritingInProgress.Get() && r.Intn(2) == 0 {
+			if u.Save() {
+				run.Inc("explicit_saves_of_a_clean_set_started_right_before_commit")
+			}
+			return
+		}
 		switch r.Intn(6) {
 		case 0:
 			if s.N.Ch.Idle() {
@@ -513,20 +523,40 @@ func checkSnapshot(run *vlib.Run, s *chainsim.Sim, b []byte) bool {
 			run.Violation("snapshot/truncated", "snapshot has fewer records than its header claims", wit)
 			return false
 		}
-		rec := make([]byte, le)
-		if _, err := rd.Read(rec); err != nil && le > 0 {
+		if le > uint64(rd.Len()) {
 			run.Violation("snapshot/truncated", "snapshot record cut short", wit)
 			return false
 		}
+		rec := make([]byte, le)
+		if _, err := io.ReadFull(rd, rec); err != nil && le > 0 {
+			run.Violation("snapshot/truncated", "snapshot record cut short", wit)
+			return false
+		}
+		if le < 33 { // a record is at least a txid and a few counters: garbage where a record should be
+			run.Violation("snapshot/garbled", "snapshot holds something that is no record where a record should be", wit)
+			return false
+		}
 		var ur *utxo.UtxoRec
-		if compressed {
-			var x utxo.UtxoRec
-			utxo.NewUtxoRecOwnC(rec, &x, nil)
-			ur = &x
-		} else {
-			var x utxo.UtxoRec
-			utxo.NewUtxoRecOwnU(rec, &x, nil)
-			ur = &x
+		decode := func() (ok bool) {
+			defer func() {
+				if recover() != nil {
+					ok = false
+				}
+			}()
+			if compressed {
+				var x utxo.UtxoRec
+				utxo.NewUtxoRecOwnC(rec, &x, nil)
+				ur = &x
+			} else {
+				var x utxo.UtxoRec
+				utxo.NewUtxoRecOwnU(rec, &x, nil)
+				ur = &x
+			}
+			return true
+		}
+		if !decode() {
+			run.Violation("snapshot/garbled", "a record of the snapshot cannot be decoded", wit)
+			return false
 		}
 		for vout, o := range ur.Outs {
 			if o == nil {
